@@ -164,7 +164,7 @@ func c08interleaveGen(c *h.Ctx, yield func(*h.Case)) {
 			if c.Pick(1, 0) == 1 && suite != "ed" && tlsv == "12" {
 				continue
 			}
-			for _, proof := range []string{"own", "other", "swap"} {
+			for _, proof := range []string{"other", "own", "swap"} {
 				for i := 0; i < c.Pick(1, 8); i++ {
 					c.Count("class=interleave")
 					yield(&h.Case{Class: "interleave:" + proof + ":tls" + tlsv, Ops: []string{fmt.Sprintf("c08 interleave suite=%s tlsv=%s proof=%s", suite, tlsv, proof)}})
